@@ -69,6 +69,7 @@ def p_c11(facts, rep, tier):
 
     nu, ns = shadow.run(facts, rep)
     rep.floor("S1 functions consulting LiveOverlay::value with a store fall-back", nu, 2)
+    shadow.s8(facts, rep)
     import mergefront
 
     mergefront.run(facts, rep)
@@ -136,6 +137,9 @@ def p_c14(facts, rep, tier):
     rep.floor("R6 obligations", n6, 4)
     n6s, n6c = errflow.r6c_backend_feeds_classifier(facts, rep)
     errflow.r8_partial_io_counts(facts, rep)
+    import syncorder
+
+    syncorder.o15(sync_ctx(facts), rep)
     rep.floor("R6 back-end call sites of the classifier fed by io_uring", n6s, 1)
     import termination
 
@@ -255,7 +259,7 @@ def p_c08(facts, rep, tier):
         "whose other edge returns KeyOutOfScope or derives from / is dominated by in_scope / find_index_for, and those predicates compare "
         "the key's prefix with the proven path; S3 - every variant of the five error types has a raising site on the corresponding "
         "verifier's path (one frozen exception); S4 - the loops that raise OpOutOfScope / OpsOutOfOrder / PathsOutOfOrder are driven by an iterator over the "
-        "whole input collection (no sub-slicing, skip, take, step_by, chunks.. in its provenance; index loops over 0..len or 1..len); S5 - every confirm_value* compares the whole expected leaf (key path and value hash) with the proven terminal. Plus compile-fail witnesses (thorough tier) that a client cannot build a Verified* object. "
+        "whole input collection (no sub-slicing, skip, take, step_by, chunks.. in its provenance; index loops over 0..len or 1..len); S5 - every confirm_value* compares the whole expected leaf (key path and value hash) with the proven terminal; S6 - the root recomputed in PathProof::verify derives from the queried key path; S7 - in both verify_update functions a branch raising OpOutOfScope is decided by an equality / starts_with comparison of the key's leading bits with the proven path (not only by ordering). Plus compile-fail witnesses (thorough tier) that a client cannot build a Verified* object. "
         "This decides that acceptance passes through the checks; it does not decide that the comparisons are the right ones nor hashing."
     )
     n1 = vguard.s1(facts, rep)
@@ -265,6 +269,7 @@ def p_c08(facts, rep, tier):
     rep.floor("S4 guard loops", n4, 4)
     n5 = vguard.s5(facts, rep)
     rep.floor("S5 value confirmations", n5, 3)
+    vguard.s7(facts, rep)
     rep.floor("S1 obligations", n1, 4)
     rep.floor("S2 obligations", n2, 8)
     rep.floor("S3 error variants", n3, 9)
@@ -359,7 +364,7 @@ def p_c03(facts, rep, tier):
         "starts (O1); hash-table writes, WAL truncation, rollback-log unlink/truncation and the index swap can start only after Meta::write "
         "returned Ok (O3); Meta::write is one page write at offset 0 followed by a checked fsync, called only from Sync::sync and create (O4); "
         "WAL redo in recover is confined to the branch where the WAL's sequence number equals the meta page's, which derives from Meta::read (O7); "
-        "the WAL is tagged with the very value stored in the meta page and the in-memory counter advances only after the swap (O8); in the sync writer and in the WAL redo every mutation of the occupancy map is followed on every path by queueing that map page for writeout (O12); every change the post-meta hash-table writeout will make is first recorded in this sync's WAL blob: set_tombstone is paired with a Clear entry and set_full / a queued data page with an Update entry for the same bucket, between reset(sync_seqn) and finalize() (O13); the redo loop of recover dispatches on the entry kind and no arm reaches the next iteration without re-applying its entry - Clear through set_tombstone, Update through a write of the hash-table file (O14). "
+        "the WAL is tagged with the very value stored in the meta page and the in-memory counter advances only after the swap (O8); in the sync writer and in the WAL redo every mutation of the occupancy map is followed on every path by queueing that map page for writeout (O12); every change the post-meta hash-table writeout will make is first recorded in this sync's WAL blob: set_tombstone is paired with a Clear entry and set_full / a queued data page with an Update entry for the same bucket, between reset(sync_seqn) and finalize() (O13); the redo loop of recover dispatches on the entry kind and no arm reaches the next iteration without re-applying its entry - Clear through set_tombstone, Update through a write of the hash-table file (O14); in the post-meta phase the WAL is truncated only after the result of the hash-table writeout has been checked (O15). "
         "Decides the before/after-the-barrier structure for all histories and crash points; data-level recovery correctness is not decided."
     )
     ctx = sync_ctx(facts)
@@ -371,6 +376,8 @@ def p_c03(facts, rep, tier):
     syncorder.o12(ctx, rep)
     syncorder.o13(ctx, rep)
     syncorder.o14(ctx, rep)
+    syncorder.o15(ctx, rep)
+    syncorder.o16(ctx, rep)
     # the old state survives a crash before the switch-over only if no page it references is rewritten: the copy-on-write
     # rules of C17 that are about WHICH pages are written are part of C03 as well
     syncorder.w2(ctx, rep)
